@@ -24,7 +24,7 @@ Print Assumptions C12_released_stay_gone.
 
 (* the code as it is today violates it: the Put of a checkpoint completes after the Delete of the same session *)
 Definition est (i : N) : newspec :=
-  {| n_id := i; n_bound := true; n_appr := true; n_crea := true; n_v6b := false; n_a4 := AAlloc; n_a6 := ANone;
+  {| n_id := i; n_bound := true; n_rel4 := false; n_appr := true; n_crea := true; n_v6b := false; n_a4 := AAlloc; n_a6 := ANone;
      n_apd := ANone; n_l4 := 3600; n_b4 := Some (-10)%Z; n_l6 := 0; n_b6 := None |}.
 Theorem C12_released_stay_gone_refuted :
   exists p ops s, run (today p 4 4 2) init ops = Some s /\ In 0 (released s) /\ aget 0 (live s) <> None /\
@@ -50,6 +50,56 @@ Theorem C12_established_restored :
              restoredQ c f cause dp0 k r (fst (do_crash c s p f now)) lg.
 Proof. exact established_restored. Qed.
 Print Assumptions C12_established_restored.
+
+(* Partially released sessions.  In IPoE [State] is the DHCPv4 state only: a dual-stack session whose IPv4 lease was
+   released while DHCPv6 (IA_NA / IA_PD) is still bound lives on with State = "released" and is re-checkpointed; the
+   converse (DHCPv6 released, IPv4 bound) is an ordinary bound image without IPv6 fields.  The expiry filter looks at
+   bound / open images only, so an image that is not in that state — in particular the State = "released" image — is
+   never filtered out: it is restored with identity, remaining addresses, dataplane programming and event exactly as
+   [C12_established_restored] says (and [C12_reserved_before_alloc] reserves its IA_NA address and prefix). *)
+Theorem C12_not_bound_restored :
+  forall c s (p : bool) f now k r,
+  aget k (store s) = Some r -> s_bound r = false ->
+  let dp0 := if p then dp s else [] in
+  let cause := match dp0 with [] => 1 | _ => 0 end in
+  exists lg, snd (do_crash c s p f now) = OCrash lg /\
+             restoredQ c f cause dp0 k r (fst (do_crash c s p f now)) lg.
+Proof. exact not_bound_restored. Qed.
+Print Assumptions C12_not_bound_restored.
+
+(* ... and only those: an image the expiry filter rejects (bound / open with an elapsed lease) is neither in the index
+   nor in the store after the restart.  Together: restored iff not expired. *)
+Theorem C12_expired_not_restored :
+  forall c s (p : bool) f now k r,
+  (forall k r, aget k (store s) = Some r -> s_id r = k) ->
+  aget k (store s) = Some r -> expired c now r = true ->
+  aget k (live (fst (do_crash c s p f now))) = None /\ aget k (store (fst (do_crash c s p f now))) = None.
+Proof. exact expired_not_restored. Qed.
+Print Assumptions C12_expired_not_restored.
+
+(* non-vacuity for the two theorems above: a State = "released" image holding an IA_NA address and a prefix is
+   restored (addresses programmed and reserved); a bound image with an elapsed IPv4 lease is dropped *)
+Definition v6only_released : newspec :=
+  {| n_id := 0; n_bound := false; n_rel4 := true; n_appr := true; n_crea := true; n_v6b := true; n_a4 := ANone;
+     n_a6 := AAlloc; n_apd := AAlloc; n_l4 := 3600; n_b4 := Some (-100)%Z; n_l6 := 600; n_b6 := Some (-5000)%Z |}.
+Definition v4_elapsed : newspec :=
+  {| n_id := 1; n_bound := true; n_rel4 := false; n_appr := true; n_crea := true; n_v6b := false; n_a4 := AAlloc;
+     n_a6 := ANone; n_apd := ANone; n_l4 := 600; n_b4 := Some (-5000)%Z; n_l6 := 0; n_b6 := None |}.
+Example C12_partial_release_nonvacuous :
+  exists s, run (repaired IPoE 4 4 2) init
+              [New v6only_released None (Some 2) (Some 1); New v4_elapsed (Some 0) None None; Cks 0; Cks 1] = Some s /\
+    (exists r, aget 0 (store s) = Some r /\ s_bound r = false /\ s_rel4 r = true) /\
+    (exists r, aget 1 (store s) = Some r /\ expired (repaired IPoE 4 4 2) 0 r = true) /\
+    let s' := fst (do_crash (repaired IPoE 4 4 2) s false None 0) in
+    (exists r', aget 0 (live s') = Some r' /\ s_rel4 r' = true /\ s_v6 r' = Some 2 /\ s_pd r' = Some 1) /\
+    aget (code 1 2) (leases s') = Some 0 /\ aget (code 2 1) (leases s') = Some 0 /\
+    aget 1 (live s') = None /\ aget 1 (store s') = None.
+Proof.
+  eexists. split; [vm_compute; reflexivity|]. split; [eexists; vm_compute; repeat split|].
+  split; [eexists; vm_compute; repeat split|].
+  vm_compute. repeat split. eexists. repeat split.
+Qed.
+Print Assumptions C12_partial_release_nonvacuous.
 
 (* Addresses are reserved again before any new subscriber can be allocated one.  For every history (any completion
    order, crashes and restores anywhere — so in particular in the state right after a restart and at every later
